@@ -14,19 +14,22 @@ using undo_model::V; using undo_model::Model; using undo_model::Emit;
 enum { ST_RUNS_PLAIN, ST_RUNS_ROBUST, ST_OPS, ST_SIM_MS, ST_CLOCK_READS,
        F_CLOCK_ADV, F_CLOCK_BACK, F_LONG_IDLE, F_SUBSECOND,
        P_D0, P_D01, P_D12, P_D2, P_D23, P_D3, P_MERGE_MUST, P_MERGE_EITHER_MERGED, P_MERGE_EITHER_SPLIT, P_MERGE_NOT_NEWEST, P_RECORD_AFTER_UNDO, P_EVICT, P_EVICT_CURSOR_LT_SIZE,
-       P_SEEK_CLAMP_LO, P_SEEK_CLAMP_HI, P_UNDO_ALL, P_REDO_ALL, P_STALE_BETWEEN, ST_N };
+       P_SEEK_CLAMP_LO, P_SEEK_CLAMP_HI, P_UNDO_ALL, P_REDO_ALL, P_STALE_BETWEEN, P_LONG_ADDR, P_OTHER_TYPE, ST_N };
 static const char *STAT_NAMES[ST_N] = { "runs.plain", "runs.robustness_config", "ops", "sim_time_ms", "clock_reads_by_library",
        "fault.clock_advance", "fault.clock_step_backwards", "fault.long_idle_1h", "fault.subsecond_placement",
        "probe.delta_0s", "probe.delta_0_to_1s", "probe.delta_1_to_2s", "probe.delta_exactly_2s", "probe.delta_2_to_3s", "probe.delta_ge_3s",
        "probe.merge_required_and_done", "probe.merge_in_grey_zone_merged", "probe.merge_in_grey_zone_split", "probe.merge_into_entry_that_is_not_newest", "probe.record_after_undo_discards_tail",
        "probe.eviction_at_cap", "probe.eviction_with_cursor_below_size", "probe.seek_clamped_at_start", "probe.seek_clamped_at_end", "probe.undo_everything", "probe.redo_everything",
-       "probe.mergeable_entry_behind_stale_entry" };
+       "probe.mergeable_entry_behind_stale_entry", "probe.address_longer_than_200", "probe.event_of_the_address_other_type" };
 
 enum { K_EPOCH, K_ROBUST, K_N };
 enum { OP_RECORD = 0, OP_SEEK, OP_CLOCK, OP_CLOCK_BACK };
-static const char *ADDRS[] = {"/a", "/b", "/c", "/dd/e", "/f3"};
-static const char TYPES[] = {'i', 'f', 'c', 'i', 'f'};
-static const int NADDR = 5;
+static const std::string LONG247 = "/long/" + std::string(241, 'x'), LONG248 = "/long/" + std::string(242, 'y'), LONG700 = "/long/" + std::string(694, 'z');
+static const char *ADDRS[] = {"/a", "/b", "/c", "/dd/e", "/f3", LONG247.c_str(), LONG248.c_str(), LONG700.c_str()};   // (the scratch buffer of the history was 256 bytes)
+static const char TYPES[] = {'i', 'f', 'c', 'i', 'f', 'i', 'f', 'i'};
+static const int NADDR = 8;
+// a[3] & 1: the event carries the address's other type (an address that takes both, e.g. 'i' and 'f')
+static char type_of(const Op &op) { int a = (int)(((op.a[0] % NADDR) + NADDR) % NADDR); char t = TYPES[a]; if (op.a[3] & 1) t = t == 'f' ? 'i' : 'f'; return t; }
 
 static V mkv(char t, int64_t raw) { V v; v.t = t; if (t == 'f') { uint32_t u = (uint32_t)raw; memcpy(&v.f, &u, 4); if (std::isnan(v.f)) v.f = 0.5f; } else if (t == 'c') v.i = (int)(raw & 0x7f); else v.i = (int32_t)raw; return v; }
 
@@ -41,7 +44,7 @@ struct UndoWorld : World {
     std::string describe(const Op &op) const override {
         char b[96];
         switch (op.kind) {
-        case OP_RECORD: { int a = (int)(((op.a[0] % NADDR) + NADDR) % NADDR); V o = mkv(TYPES[a], op.a[1]), n = mkv(TYPES[a], op.a[2]); snprintf(b, sizeof b, "record(%s,%s->%s)", ADDRS[a], o.str().c_str(), n.str().c_str()); break; }
+        case OP_RECORD: { int a = (int)(((op.a[0] % NADDR) + NADDR) % NADDR); V o = mkv(type_of(op), op.a[1]), n = mkv(type_of(op), op.a[2]); snprintf(b, sizeof b, "record(%.20s%s:%c,%s->%s)", ADDRS[a], strlen(ADDRS[a]) > 20 ? ("..[" + std::to_string(strlen(ADDRS[a])) + "]").c_str() : "", type_of(op), o.str().c_str(), n.str().c_str()); break; }
         case OP_SEEK: snprintf(b, sizeof b, "seek(%+lld)", (long long)op.a[0]); break;
         case OP_CLOCK: snprintf(b, sizeof b, "clock(+%lldms)", (long long)op.a[0]); break;
         default: snprintf(b, sizeof b, "clock(-%lldms)", (long long)op.a[0]); break;
@@ -50,7 +53,7 @@ struct UndoWorld : World {
     }
     std::vector<Op> simpler(const Op &op) const override {
         std::vector<Op> v;
-        if (op.kind == OP_RECORD) { if (op.a[0]) { Op o = op; o.a[0] = 0; v.push_back(o); } { int a = (int)(((op.a[0] % NADDR) + NADDR) % NADDR); int64_t one = TYPES[a] == 'f' ? 0x3f800000 : 1; if (op.a[1] || op.a[2] != one) { Op o = op; o.a[1] = 0; o.a[2] = one; v.push_back(o); } } }
+        if (op.kind == OP_RECORD) { if (op.a[0]) { Op o = op; o.a[0] = 0; v.push_back(o); } if (op.a[3]) { Op o = op; o.a[3] = 0; v.push_back(o); } { int a = (int)(((op.a[0] % NADDR) + NADDR) % NADDR); (void)a; int64_t one = type_of(op) == 'f' ? 0x3f800000 : 1; if (op.a[1] || op.a[2] != one) { Op o = op; o.a[1] = 0; o.a[2] = one; v.push_back(o); } } }
         else if (op.kind == OP_SEEK) { if (op.a[0] < -1) { Op o = op; o.a[0] = -1; v.push_back(o); } if (op.a[0] > 1) { Op o = op; o.a[0] = 1; v.push_back(o); } }
         else if (op.kind == OP_CLOCK) { for (int64_t c : {1000, 2000, 3000}) if (op.a[0] > c) { Op o = op; o.a[0] = c; v.push_back(o); } }
         return v;
@@ -62,17 +65,17 @@ struct UndoWorld : World {
         k[K_ROBUST] = kr.chance(0.1);
         int n = (int)pr.below(pr.chance(0.5) ? 20 : (g_tier ? 150 : 61));
         double p_rec = 0.35 + 0.45 * pr.unit(), p_seek = 0.1 + 0.2 * pr.unit();
-        int naddr = 1 + (int)pr.below(NADDR);
+        int naddr = 1 + (int)pr.below(5); bool long_mode = pr.chance(0.25), mixed_types = pr.chance(0.25);
         bool evict_mode = pr.chance(0.3); if (evict_mode) { n = 25 + (int)pr.below(36); p_rec = 0.8; p_seek = 0.1; }
-        int64_t last[NADDR] = {0, 0, 0, 0, 0};
+        int64_t last[NADDR] = {0, 0, 0, 0, 0, 0, 0, 0};
         for (int i = 0; i < n; i++) {
             Op o; double u = pr.unit();
             if (u < p_rec) {
                 if (evict_mode && pr.chance(0.8)) { Op c; c.kind = OP_CLOCK; c.a[0] = 3000 + (int64_t)pr.below(2000); p.push_back(c); }
-                o.kind = OP_RECORD; int a = (int)pr.below(naddr); o.a[0] = a;
+                o.kind = OP_RECORD; int a = (int)pr.below(naddr); if (long_mode && pr.chance(0.3)) a = 5 + (int)pr.below(3); o.a[0] = a; if (mixed_types && TYPES[a] != 'c' && pr.chance(0.3)) o.a[3] = 1;
                 auto val = [&](char t) -> int64_t { if (t == 'f') { float f = (float)((int)pr.below(2001) - 1000) / 8.0f; uint32_t u; memcpy(&u, &f, 4); return u; } if (t == 'c') return (int64_t)pr.below(128); return pr.chance(0.1) ? (int64_t)(int32_t)pr.next() : (int64_t)pr.below(200) - 100; };
-                o.a[1] = pr.chance(0.7) ? last[a] : val(TYPES[a]);
-                do { o.a[2] = val(TYPES[a]); } while (o.a[2] == o.a[1]);
+                o.a[1] = pr.chance(0.7) && !o.a[3] ? last[a] : val(type_of(o));
+                do { o.a[2] = val(type_of(o)); } while (o.a[2] == o.a[1]);
                 last[a] = o.a[2];
             } else if (u < p_rec + p_seek) {
                 o.kind = OP_SEEK; double s = pr.unit();
@@ -101,8 +104,8 @@ struct UndoWorld : World {
         auto fail = [&](const char *cls, const std::string &d) { if (res.cls.empty()) { res.cls = cls; res.detail = d; } };
         auto entry_of = [&](int i, std::string &addr, V &o, V &n) {
             const char *m = hist->getHistory(i); if (strcmp(m, "/undo_change") || rtosc_narguments(m) != 3) return false;
-            addr = rtosc_argument(m, 0).s; char t = rtosc_type(m, 1); o.t = n.t = t; rtosc_arg_t a = rtosc_argument(m, 1), b = rtosc_argument(m, 2);
-            if (t == 'f') { o.f = a.f; n.f = b.f; } else { o.i = a.i; n.i = b.i; } return rtosc_type(m, 2) == t; };
+            addr = rtosc_argument(m, 0).s; o.t = rtosc_type(m, 1); n.t = rtosc_type(m, 2); rtosc_arg_t a = rtosc_argument(m, 1), b = rtosc_argument(m, 2);
+            if (o.t == 'f') o.f = a.f; else o.i = a.i; if (n.t == 'f') n.f = b.f; else n.i = b.i; return true; };
         auto real_matches = [&](const Model &m) {
             if (hist->getPos() != m.pos || hist->size() != m.h.size()) return false;
             for (size_t i = 0; i < m.h.size(); i++) { std::string a; V o, n; if (!entry_of((int)i, a, o, n)) return false; if (a != m.h[i].addr || !(o == m.h[i].oldv) || !(n == m.h[i].newv)) return false; }
@@ -115,7 +118,7 @@ struct UndoWorld : World {
             if (op.kind == OP_CLOCK_BACK) { if (!robust) continue; int64_t ms = std::max<int64_t>(0, std::min<int64_t>(op.a[0], 100000)); g_clock_ns -= ms * 1000000LL; if (g_clock_ns < 0) g_clock_ns = 0; had_back = true; stat_add(F_CLOCK_BACK); continue; }
             int64_t now_ms = g_clock_ns / 1000000LL;
             if (had_back) {   // robustness configuration after a backwards step: only memory safety and pos <= size <= 20 are claimed
-                if (op.kind == OP_RECORD) { int a = (int)(((op.a[0] % NADDR) + NADDR) % NADDR); char t = TYPES[a]; V o = mkv(t, op.a[1]), n = mkv(t, op.a[2]); char buf[256]; char ts[4] = {'s', t, t, 0};
+                if (op.kind == OP_RECORD) { int a = (int)(((op.a[0] % NADDR) + NADDR) % NADDR); char t = type_of(op); V o = mkv(t, op.a[1]), n = mkv(t, op.a[2]); char buf[1024]; char ts[4] = {'s', t, t, 0};
                     rtosc_arg_t args[3]; args[0].s = ADDRS[a]; if (t == 'f') { args[1].f = o.f; args[2].f = n.f; } else { args[1].i = o.i; args[2].i = n.i; }
                     rtosc_amessage(buf, sizeof buf, "/undo_change", ts, args); hist->recordEvent(buf); }
                 else hist->seekHistory((int)std::max<int64_t>(-1000, std::min<int64_t>(op.a[0], 1000)));
@@ -123,8 +126,8 @@ struct UndoWorld : World {
                 continue;
             }
             if (op.kind == OP_RECORD) {
-                int a = (int)(((op.a[0] % NADDR) + NADDR) % NADDR); char t = TYPES[a]; V o = mkv(t, op.a[1]), n = mkv(t, op.a[2]);
-                char buf[256]; char ts[4] = {'s', t, t, 0};
+                int a = (int)(((op.a[0] % NADDR) + NADDR) % NADDR); char t = type_of(op); V o = mkv(t, op.a[1]), n = mkv(t, op.a[2]);
+                char buf[1024]; char ts[4] = {'s', t, t, 0}; if (strlen(ADDRS[a]) > 200) stat_add(P_LONG_ADDR); if (op.a[3] & 1) stat_add(P_OTHER_TYPE);
                 rtosc_arg_t args[3]; args[0].s = ADDRS[a]; if (t == 'f') { args[1].f = o.f; args[2].f = n.f; } else { args[1].i = o.i; args[2].i = n.i; }
                 rtosc_amessage(buf, sizeof buf, "/undo_change", ts, args);
                 Model::Merge mg = model.classify(ADDRS[a], now_ms);
